@@ -7,6 +7,7 @@ WalkPar.v with a `bad` item set) inside Coq, and the property predicate (the
 operation must fail visibly: neither a normal return nor a hang) is evaluated on
 the implementation's outcome.  Serial mode is checked directly.
 """
+import os
 import contextlib
 import signal
 import io
@@ -232,6 +233,73 @@ def run_all_bad(srng, stage_fn):
     return r
 
 
+# ---------------------------------------------------------------------------------------------
+# par_util.resolve_parallelism: how a requested worker count reaches the stages (Model/ParUtil.v)
+
+PARUTIL_DEFS = """
+From Coq Require Import ZArith List Bool.
+Import ListNotations.
+Local Open Scope Z_scope.
+Record pcase := mkPC { pc_fork : bool; pc_slurm : option (option Z); pc_cpus : Z; pc_req : option Z; pc_obs : Z }.
+Definition chk_pc (c : pcase) : bool :=
+  resolve_parallelism (pc_fork c) (pc_slurm c) (pc_cpus c) (pc_req c) =? pc_obs c.
+"""
+
+
+def parutil_cases(V, rng, n):
+    """the real resolve_parallelism under patched start method / environment / CPU count vs the model;
+    the statement's own clause (a serial request is honoured whatever the environment says) checked directly"""
+    import multiprocessing as mp
+    from unittest import mock
+    from toasty import par_util
+
+    def gz(v):
+        return f"({v})%Z" if v < 0 else f"{v}%Z"
+
+    terms, metas = [], []
+    slurms = [None, "", "4", "1", "0", "-3", "12", "x", "3.5", " 7 ", "0x10"]
+    reqs = [None, 1, 0, -2, 2, 3, 16]
+    combos = [(f, sl, c, r) for f in (True, False) for sl in slurms for c in (1, 2, 16) for r in reqs]
+    rng.shuffle(combos)
+    for fork, sl, cpus, req in combos[:n]:
+        env = dict(os.environ)
+        env.pop("SLURM_NPROCS", None)
+        if sl is not None:
+            env["SLURM_NPROCS"] = sl
+        with mock.patch.object(mp, "get_start_method", lambda *a, **k: "fork" if fork else "spawn"), \
+                mock.patch.object(os, "cpu_count", lambda: cpus), mock.patch.dict(os.environ, env, clear=True), \
+                mock.patch.object(par_util, "SHOW_INFORMATIONAL_MESSAGES", False), \
+                contextlib.redirect_stderr(io.StringIO()), contextlib.redirect_stdout(io.StringIO()):
+            try:
+                got = par_util.resolve_parallelism(req)
+            except Exception as e:  # noqa
+                V.disagreement("par_util.resolve_parallelism returns", dict(fork=fork, SLURM_NPROCS=sl, cpus=cpus, parallel=req),
+                               "an integer", repr(e), True)
+                continue
+        case = dict(fork=fork, SLURM_NPROCS=sl, cpus=cpus, parallel=req)
+        if req is not None and req <= 1 and got != 1:
+            V.disagreement("C19 (serial mode): parallel=1 must reach the stages as 1 in every environment "
+                           "(theorem serial_request_is_honoured)", case, 1, got, True)
+        if req is not None and req >= 1 and fork and got != req:
+            V.disagreement("an explicit worker count reaches the stages unchanged (theorem explicit_request_is_honoured)",
+                           case, req, got, True)
+        if sl is None or sl == "":
+            g_sl = "None"
+        else:
+            try:
+                g_sl = f"(Some (Some {gz(int(sl))}))"
+            except ValueError:
+                g_sl = "(Some None)"
+        g_req = "None" if req is None else f"(Some {gz(req)})"
+        terms.append(f"(mkPC {'true' if fork else 'false'} {g_sl} {gz(cpus)} {g_req} {gz(int(got))})")
+        metas.append((case, got))
+    bad = common.coq_eval_sharded(PARUTIL_DEFS, terms, "chk_pc", ["Model.ParUtil"], shard=500, jobs=2, name="c19p")
+    for i in bad:
+        case, got = metas[i]
+        V.disagreement("ParUtil.resolve_parallelism ~ par_util.resolve_parallelism", case, "model value (vm_compute)", got, None)
+    return len(terms)
+
+
 def run(ctx, V):
     rng = common.rng_for(ctx["seed"], "C19")
     quick = ctx["tier"] == "quick"
@@ -239,6 +307,7 @@ def run(ctx, V):
     n_walk = 100 if quick else 1000
     n_serial = serial_checks(V)
     n_prod, prod_hist = producer_fault_cases(rng, V, 30 if quick else 300)
+    n_parutil = parutil_cases(V, common.rng_for(ctx["seed"], "C19parutil"), 200 if quick else 10000)
     # --- producer/worker stages -------------------------------------------------
     vres = []
     for k in range(n_visit):
@@ -318,7 +387,7 @@ def run(ctx, V):
                            finding_key=f"C19/walk/{cls}")
     samples = [dict(desc=r["desc"], par=r["par"], bad=r["bad"], outcome=r["outcome"]) for r in vres[:3]]
     outcomes.update({tuple(k.rsplit("/", 1)): v for k, v in prod_hist.items()})
-    return dict(evaluations=n_serial + n_prod + len(vres) + len(wres), distinct_nontrivial=len(vterms) + len(wterms),
+    return dict(evaluations=n_serial + n_prod + n_parutil + len(vres) + len(wres), resolve_parallelism_cases=n_parutil, distinct_nontrivial=len(vterms) + len(wterms),
                 traces_validated_against_impl=len(vterms) + len(wterms),
                 outcome_histogram={f"{s}/{c}": n for (s, c), n in sorted(outcomes.items())},
                 rule="every case: one stage, one raising item, random worker count / pipe capacity / biased schedule; "
